@@ -55,6 +55,9 @@ pub struct SCase {
     /// control run: the threads' programs are executed one after the other on one thread
     #[serde(default)]
     pub sequential: bool,
+    /// order in which a control run executes the threads' programs (empty = 0, 1, 2, ...)
+    #[serde(default)]
+    pub order: Vec<usize>,
 }
 
 #[derive(Clone, Debug, PartialEq, Serialize, Deserialize)]
@@ -593,7 +596,8 @@ pub fn run_case(case: Arc<SCase>, prop: String) {
         return;
     }
     if case.sequential {
-        for t in 0..case.threads.len() {
+        let order: Vec<usize> = if case.order.is_empty() { (0..case.threads.len()).collect() } else { case.order.clone() };
+        for t in order {
             fastrand::seed(mix(&[case.fastrand_seed, t as u64]));
             for op in &case.threads[t] {
                 match &case.kind {
@@ -776,7 +780,7 @@ pub fn gen_case(prop: &str, seed: u64) -> (SCase, Sched) {
                 });
             }
         }
-        return (SCase { kind: Kind::Reg, fns, threads: vec![ops], shards, salt, fastrand_seed, probe: false, sequential: false }, sched);
+        return (SCase { kind: Kind::Reg, fns, threads: vec![ops], shards, salt, fastrand_seed, probe: false, sequential: false, order: vec![] }, sched);
     }
     let l1 = matches!(prop, "C18" | "C17" | "C16") && r.chance(1, 3);
     let nthreads = r.range(2, 3) as usize;
@@ -808,7 +812,7 @@ pub fn gen_case(prop: &str, seed: u64) -> (SCase, Sched) {
             }
             threads.push(ops);
         }
-        return (SCase { kind: Kind::L1(p), fns: vec![], threads, shards, salt, fastrand_seed, probe: true, sequential: false }, sched);
+        return (SCase { kind: Kind::L1(p), fns: vec![], threads, shards, salt, fastrand_seed, probe: true, sequential: false, order: vec![] }, sched);
     }
     // L2 program
     let pool: Vec<&FnSpec> = SPECS
@@ -902,5 +906,5 @@ pub fn gen_case(prop: &str, seed: u64) -> (SCase, Sched) {
         }
         threads.push(ops);
     }
-    (SCase { kind: Kind::L2, fns, threads, shards, salt, fastrand_seed, probe: matches!(prop, "C18"), sequential: false }, sched)
+    (SCase { kind: Kind::L2, fns, threads, shards, salt, fastrand_seed, probe: matches!(prop, "C18"), sequential: false, order: vec![] }, sched)
 }
